@@ -328,10 +328,31 @@ class Peer:
         if self.mode == 'real':
             rec = [dtid, k, pid, text, False]
             self.writes.append(rec)
-            sys.stdout.write(text)
+            self._emit_text(pid, text)
             rec[4] = True
         else:
-            sys.stdout.write(text)
+            self._emit_text(pid, text)
+
+    @staticmethod
+    def _emit_text(pid, text):
+        """code under test writes in different ways; which one is a fixed function
+        of the point, so that every run of the same world writes the same way"""
+        style = sum(ord(c) for c in pid) % 6
+        out = sys.stdout
+        if style == 0 or not text:
+            out.write(text)
+        elif style == 1:
+            print(text, end='')
+        elif style == 2 and text.endswith('\n'):
+            print(text[:-1])                    # the text, then the line break: two writes
+        elif style == 3:
+            out.writelines([text[:3], text[3:]])
+        elif style == 4:
+            out.write(text[:2])
+            out.flush()
+            out.write(text[2:])
+        else:
+            print(text, end='', file=out, flush=True)
 
     async def aop(self, pid, delay=None):
         dtid, k, n = self._hit(pid)
